@@ -133,6 +133,12 @@ static inline int *vs_trymove_xvalue(int *v)
     __CPROVER_assert(0, "C11: the stored value is handed over as an rvalue only to a continuation that takes an rvalue reference (other continuations of the promise still need it)");
     return v;
 }
+/* finishResolve of a promise-returning continuation: inner.then(chainer, handler) -- ghost record of what the inner promise is wired to */
+size_t g_inner_then; const void *g_inner_chain, *g_inner_weak;
+#define VS_LAM(fn, cl) fn, cl
+#define vs_inner_then(p, ch, lam) vs_inner_then_(p, ch, lam)
+#define vs_inner_then_(p, ch, fn, cl) ((void)(p), (void)(fn), (void)(g_inner_then++), (void)(g_inner_chain = (ch)->chainCore), (void)(g_inner_weak = (cl)->weakPtr))
+/* std::weak_ptr<Core>: the pointer while the core lives, null once it is gone; lock() hands it out */
 /* then(): the new continuation object (make_shared<Continuation>): known by the index it will have in the vector */
 size_t g_new_req; size_t g_pushed;
 static inline size_t vs_new_req(void) { return g_new_req; }
@@ -186,6 +192,7 @@ STUBS = {
     'operator=|std::atomic<Pistache::Async::State>': {'expr': '(($0) = ($1))'},
     'operator=|std::__exception_ptr::exception_ptr': {'expr': '(($0) = ($1))'},
     'make_exception_ptr': 'vs_make_eptr',
+    'ctor:Pistache::Async::Private::impl::Continuation<int, Pistache::Async::VerifInst::Chain, Pistache::Async::Private::Throw, Pistache::Async::Promise<int>(int)>::Chainer<int>/1': {'expr': '((struct Pistache_Async_Private_impl_Continuation_Chainer_int_){ ($0) })'},
     'Pistache::Async::Private::CoreT::value': {'expr': '(*vs_core_value($this))', 'throws_int': True},
     'operator()|Pistache::Async::VerifInst::AddOne': {'expr': 'vs_user_resolve($1)', 'throws_int': True},
     'field:Pistache::Async::Private::InternalRethrow::exc': 'g_rethrown_exc',
@@ -213,9 +220,9 @@ ASSUMED = [
 THROWING = ['vs_req_resolve', 'vs_req_reject', 'vs_core_construct', 'vs_do_resolve', 'vs_do_reject', 'vs_user_resolve', 'vs_core_value']
 ALWAYS_REPLACE = []
 OPAQUE = []
-RECORDS = ['Pistache::Async::Impl::WhenAllRange::Data', 'Pistache::Async::Impl::WhenAllRange::DataT<int, void>', 'Pistache::Async::Impl::WhenAllRange::WhenContinuation<int, void>', 'Pistache::Async::VerifInst::AddOne', 'Pistache::Async::Private::impl::Continuation<int, Pistache::Async::VerifInst::AddOne, Pistache::Async::Private::Throw, int (int)>', 'Pistache::Async::Private::Request', 'Pistache::Async::Private::Continuable<int>', 'Pistache::Async::Promise<int>', 'Pistache::Async::PromiseBase', 'Pistache::Async::Private::Throw', 'Pistache::Async::Private::Core', 'Pistache::Async::Resolver', 'Pistache::Async::Rejection', 'Pistache::Async::Impl::All::Data', 'Pistache::Async::Impl::Any::Data']
+RECORDS = ['Pistache::Async::VerifInst::Chain', 'Pistache::Async::Private::impl::Continuation<int, Pistache::Async::VerifInst::Chain, Pistache::Async::Private::Throw, Pistache::Async::Promise<int> (int)>', 'Pistache::Async::Private::impl::Continuation::Chainer<int>', 'Pistache::Async::Impl::WhenAllRange::Data', 'Pistache::Async::Impl::WhenAllRange::DataT<int, void>', 'Pistache::Async::Impl::WhenAllRange::WhenContinuation<int, void>', 'Pistache::Async::VerifInst::AddOne', 'Pistache::Async::Private::impl::Continuation<int, Pistache::Async::VerifInst::AddOne, Pistache::Async::Private::Throw, int (int)>', 'Pistache::Async::Private::Request', 'Pistache::Async::Private::Continuable<int>', 'Pistache::Async::Promise<int>', 'Pistache::Async::PromiseBase', 'Pistache::Async::Private::Throw', 'Pistache::Async::Private::Core', 'Pistache::Async::Resolver', 'Pistache::Async::Rejection', 'Pistache::Async::Impl::All::Data', 'Pistache::Async::Impl::Any::Data']
 ENUMS = ['Pistache::Async::State']
-RECORD_ALIASES = {'std::__shared_ptr_access<Pistache::Async::Impl::WhenAllRange<int, std::vector<int>>::DataT<int>, __gnu_cxx::_S_atomic, false, false>::element_type': 'Pistache::Async::Impl::WhenAllRange::DataT<int, void>'}
+RECORD_ALIASES = {'Pistache::Async::Private::impl::Continuation<int, Pistache::Async::VerifInst::Chain, Pistache::Async::Private::Throw, Pistache::Async::Promise<int>(int)>': 'Pistache::Async::Private::impl::Continuation<int, Pistache::Async::VerifInst::Chain, Pistache::Async::Private::Throw, Pistache::Async::Promise<int> (int)>', 'std::__shared_ptr_access<Pistache::Async::Impl::WhenAllRange<int, std::vector<int>>::DataT<int>, __gnu_cxx::_S_atomic, false, false>::element_type': 'Pistache::Async::Impl::WhenAllRange::DataT<int, void>'}
 EXCEPTIONS = {'Pistache::Async::Private::InternalRethrow': 'VS_EXC_RETHROW', 'Pistache::Async::Error': 'VS_EXC_RUNTIME_ERROR', 'Pistache::Async::BadType': 'VS_EXC_RUNTIME_ERROR'}
 CATCH_TEST = {'Pistache::Async::Private::InternalRethrow': '$ == VS_EXC_RETHROW'}
 def THROW_PAYLOAD(L, t, ce):
@@ -227,7 +234,7 @@ DEFAULT_RULE = True
 OPAQUE_UNKNOWN = True
 OPAQUE_ANY = True
 DEVIRT = {}
-for _f in ('Resolver_call_vector', 'Continuation_AddOne_finishResolve', 'Continuation_AddOne_doResolve', 'Continuation_AddOne_doReject', 'Promise_int_isFulfilled', 'Promise_int_isRejected', 'Continuable_int_resolve', 'Continuable_int_reject', 'Promise_int_then_AddOne', 'Resolver_call_tuple', 'Resolver_call_any', 'Rejection_call_eptr', 'Rejection_call_error', 'Resolver_call_int', 'Resolver_call_void', 'Continuable_int_reject', 'Continuable_int_resolve', 'Promise_int_then'):
+for _f in ('Chainer_int_call', 'Continuation_Chain_finishResolve', 'Continuation_Chain_finishResolve__lam0', 'Resolver_call_vector', 'Continuation_AddOne_finishResolve', 'Continuation_AddOne_doResolve', 'Continuation_AddOne_doReject', 'Promise_int_isFulfilled', 'Promise_int_isRejected', 'Continuable_int_resolve', 'Continuable_int_reject', 'Promise_int_then_AddOne', 'Resolver_call_tuple', 'Resolver_call_any', 'Rejection_call_eptr', 'Rejection_call_error', 'Resolver_call_int', 'Resolver_call_void', 'Continuable_int_reject', 'Continuable_int_resolve', 'Promise_int_then'):
     DEVIRT[(_f, 'reject')] = 'vs_req_reject'
     DEVIRT[(_f, 'resolve')] = 'vs_req_resolve'
     DEVIRT[(_f, 'isVoid')] = 'vs_core_isvoid'
@@ -490,6 +497,48 @@ FUNCTIONS += [
         ensures (!OLD(%(d)s->vs_base_Data.rejected) && OLD(%(d)s->vs_base_Data.resolved) + 1 == %(d)s->vs_base_Data.total && vs_exc == 0) ==> (%(c)s->state == ST_FULFILLED && g_constructs == 1 && g_res_calls == %(c)s->requests.n)
         ensures g_rej_calls == 0 && g_k_res <= 1 && !%(d)s->vs_base_Data.mtx.held""" % {'d': WD, 'c': WDC}},
 ]
+
+# ---- a continuation that returns a further promise: the inner promise's outcome becomes the derived promise's outcome
+CC = 'this->chainCore'
+FUNCTIONS += [
+    {'q': 'Pistache::Async::Private::impl::Continuation::Chainer::operator()', 'sig_exact': 'void (const int &)', 'c': 'Chainer_int_call',
+     'contract': """requires FRESH(this, sizeof(*this)) && FRESH(val, sizeof(*val)) && FRESH(%(c)s, sizeof(*%(c)s)) && CORE_OK(%(c)s) && g_exp_core == %(c)s && GHOST0 && !g_type_void
+        requires %(c)s->requests.n == 0 || g_k < %(c)s->requests.n
+        assigns """ % {'c': CC} + GH + """, %(c)s->state, %(c)s->allocated
+        # the value the inner promise is fulfilled with fulfils the derived promise: stored once, every continuation attached to it once
+        ensures vs_exc == 0 ==> (%(c)s->state == ST_FULFILLED && g_constructs == 1 && g_res_calls == %(c)s->requests.n && (%(c)s->requests.n > 0 ==> g_k_res == 1))
+        ensures g_res_calls > 0 ==> %(c)s->state == ST_FULFILLED
+        ensures g_rej_calls == 0 && g_k_res <= 1 && g_constructs <= 1""" % {'c': CC},
+     'loops': ["""
+        assigns $BEGIN, vs_exc, g_k_res, g_res_calls, vs_req_slot
+        invariant $BEGIN <= $END && $END == %(c)s->requests.n && vs_exc == 0 && g_res_calls == $BEGIN && g_k_res == ((g_k < $BEGIN) ? 1 : 0) && %(c)s->state == ST_FULFILLED && g_constructs == 1
+        decreases $END - $BEGIN""" % {'c': CC}]},
+    {'q': 'Pistache::Async::Private::impl::Continuation::Chainer::Chainer', 'c': 'Chainer_int_ctor'},
+    {'q': 'Pistache::Async::Private::impl::Continuation::makeChainer', 'c': 'Continuation_Chain_makeChainer'},
+    {'q': 'Pistache::Async::Private::impl::Continuation::finishResolve', 'sig_exact': 'void (Pistache::Async::Promise<int> &)', 'c': 'Continuation_Chain_finishResolve',
+     'types': {'std::weak_ptr<Core>': CORE, 'std::weak_ptr<Pistache::Async::Private::Core>': CORE},
+     'stubs': {'ctor:std::weak_ptr<Pistache::Async::Private::Core>/1': {'expr': '($0)'}, 'Pistache::Async::Promise::then': {'expr': 'vs_inner_then($this, &($0), $1)'},
+               'std::weak_ptr<Pistache::Async::Private::Core>::lock': {'expr': '(*($this))'}},
+     'contract': """requires FRESH(this, sizeof(*this)) && FRESH(promise, sizeof(*promise)) && FRESH(%(ch)s, sizeof(*%(ch)s)) && CORE_OK(%(ch)s) && vs_exc == 0 && g_inner_then == 0
+        assigns vs_exc, g_inner_then, g_inner_chain, g_inner_weak
+        # the derived promise is wired to the inner promise exactly once: fulfilment through a Chainer holding the derived promise's core,
+        # rejection through the handler below holding (weakly) the same core; the derived promise itself is not settled here
+        ensures g_inner_then == 1 && g_inner_chain == %(ch)s && g_inner_weak == %(ch)s && %(ch)s->state == OLD(%(ch)s->state)""" % {'ch': CH}},
+    {'q': 'Pistache::Async::Private::impl::Continuation::finishResolve::lam0', 'lambda': True,
+     'contract': """requires FRESH(cl, sizeof(*cl)) && (cl->weakPtr == 0 || (FRESH(cl->weakPtr, sizeof(*cl->weakPtr)) && CORE_OK(cl->weakPtr) && g_exp_core == cl->weakPtr && (cl->weakPtr->requests.n == 0 || g_k < cl->weakPtr->requests.n)))
+        requires GHOST0 && g_exp_exc == exc
+        assigns """ + GH + """; cl->weakPtr != 0: cl->weakPtr->state, cl->weakPtr->exc
+        # a rejection of the inner promise rejects the derived promise with the SAME exception and reaches the rejection side of every
+        # continuation attached to it once (a derived promise that no longer exists is left alone)
+        ensures cl->weakPtr != 0 ==> (cl->weakPtr->state == ST_REJECTED && cl->weakPtr->exc == exc && g_rej_calls <= cl->weakPtr->requests.n)
+        ensures (cl->weakPtr != 0 && vs_exc == 0) ==> (g_rej_calls == cl->weakPtr->requests.n && (cl->weakPtr->requests.n > 0 ==> g_k_rej == 1))
+        ensures cl->weakPtr == 0 ==> (g_rej_calls == 0 && vs_exc == 0)
+        ensures g_res_calls == 0 && g_k_rej <= 1""",
+     'loops': ["""
+        assigns $BEGIN, vs_exc, g_k_rej, g_rej_calls, vs_req_slot
+        invariant $BEGIN <= $END && $END == core->requests.n && vs_exc == 0 && g_rej_calls == $BEGIN && g_k_rej == ((g_k < $BEGIN) ? 1 : 0) && core->state == ST_REJECTED && core->exc == g_exp_exc && core == cl->weakPtr
+        decreases $END - $BEGIN"""]},
+]
 PROOFS = [
     {'name': 'Resolver_call_value', 'enforce': 'Resolver_call_int', 'loops': 'contracts', 'props': ['C11']},
     {'name': 'Resolver_call_void', 'enforce': 'Resolver_call_void', 'loops': 'contracts', 'props': ['C11']},
@@ -509,5 +558,8 @@ PROOFS = [
     {'name': 'Continuation_doReject', 'enforce': 'Continuation_AddOne_doReject', 'replace': ['Throw_call'], 'loops': 'contracts', 'props': ['C11']},
     {'name': 'Resolver_call_vector', 'enforce': 'Resolver_call_vector', 'loops': 'contracts', 'props': ['C11']},
     {'name': 'WhenAllRange_continuation', 'enforce': 'WhenAllRange_int_cont_call', 'replace': ['Resolver_call_vector'], 'props': ['C11']},
+    {'name': 'Chainer_call', 'enforce': 'Chainer_int_call', 'loops': 'contracts', 'props': ['C11']},
+    {'name': 'Continuation_promise_finishResolve', 'enforce': 'Continuation_Chain_finishResolve', 'props': ['C11']},
+    {'name': 'Continuation_promise_reject_handler', 'enforce': 'Continuation_Chain_finishResolve__lam0', 'loops': 'contracts', 'props': ['C11']},
     {'name': 'Any_reject', 'enforce': 'Pistache_Async_Impl_Any_reject', 'replace': ['Rejection_call_eptr'], 'props': ['C11']},
 ]
